@@ -380,16 +380,17 @@ SEQ_DEFAULT = [("mix", 1024, None, 40, 40), ("cas", 1024, None, 30, 40), ("cuts"
 
 PROPS = {
     "C01": {"seq": [("mix", 1024, None, 60, 40), ("wide", 1024, None, 40, 50), ("ttl", 1024, None, 30, 40),
-                    ("mix", 1024, 1000000, 30, 40), ("cuts", 256, None, 20, 30)], "relevant": "RMW"},
+                    ("mix", 1024, 1000000, 30, 40), ("cuts", 256, None, 20, 30), ("big", 1048576, None, 5, 16)],
+            "conn": [("big", 1048576, None, 4, 14)], "conc": [("base", 200)], "monitor_kinds": ["STUCK"], "relevant": "RMWT"},
     "C02": {"seq": [("cas", 1024, None, 80, 50), ("mix", 1024, None, 30, 40), ("ttl", 1024, None, 30, 40),
-                    ("counter", 1024, None, 30, 40)], "relevant": "RMW"},
+                    ("counter", 1024, None, 30, 40)], "conc": [("base", 200)], "monitor_kinds": ["STUCK"], "relevant": "RMWT"},
     "C03": {"seq": [("cas", 1024, None, 20, 30)], "conc": [("base", 500)], "relevant": "RMT"},
     "C04": {"seq": [("counter", 1024, None, 20, 30)], "conc": [("rmw", 500)], "relevant": "RMT",
             "known_classes": True},
     "C16": {"seq": [("policy", 1024, 200, 10, 30)], "conc": [("base", 250), ("rmw", 250)], "sweep": 300, "pol": 100, "relevant": "T",
             "monitor_kinds": ["STUCK"]},
     "C05": {"seq": [("ttl", 1024, None, 80, 50), ("flush", 1024, None, 60, 50), ("mix", 1024, None, 30, 40)],
-            "relevant": "RMW"},
+            "conc": [("ttl", 300)], "monitor_kinds": ["STUCK"], "relevant": "RMWT"},
     "C06": {"seq": [("mix", 1024, None, 60, 40), ("cas", 1024, None, 40, 40), ("ttl", 1024, None, 40, 40),
                     ("flush", 1024, None, 20, 40), ("mix", 64, None, 20, 40)], "relevant": "RMW"},
     "C07": {"seq": [("counter", 1024, None, 100, 50), ("cas", 1024, None, 20, 40), ("ttl", 1024, None, 20, 40)],
@@ -398,14 +399,15 @@ PROPS = {
                     ("wide", 1024, None, 30, 40)], "relevant": "RMW"},
     "C09": {"seq": [("cuts", 1024, None, 60, 30), ("malformed", 1024, None, 60, 30), ("malformed", 100, None, 40, 30),
                     ("cuts", 64, None, 30, 30)],
-            "conn": [("cuts", 1024, None, 30, 25), ("malformed", 100, None, 30, 25), ("malformed", 1024, None, 20, 25)],
+            "conn": [("cuts", 1024, None, 30, 25), ("malformed", 100, None, 30, 25), ("malformed", 1024, None, 20, 25),
+                     ("big", 1048576, None, 4, 14)],
             "relevant": "RSM"},
     "C10": {"seq": [("malformed", 1024, None, 80, 30), ("malformed", 64, None, 40, 30), ("counter", 1024, None, 30, 40),
                     ("cas", 1024, None, 30, 40)],
             "conn": [("malformed", 100, None, 30, 25)], "relevant": "RSM"},
     "C11": {"seq": [("mix", 1024, None, 80, 40), ("quiet", 1024, None, 40, 40), ("counter", 1024, None, 40, 40),
                     ("malformed", 100, None, 40, 30), ("wide", 1024, None, 30, 40)],
-            "conn": [("mix", 1024, None, 20, 25)], "relevant": "RW", "monitor_prefix": "c11_"},
+            "conn": [("mix", 1024, None, 20, 25), ("big", 1048576, None, 6, 16)], "relevant": "RW", "monitor_prefix": "c11_"},
     "C12": {"seq": [("quiet", 1024, None, 60, 40), ("mix", 1024, None, 40, 40), ("malformed", 1024, None, 30, 30)],
             "conn": [("quiet", 1024, None, 30, 25), ("mix", 1024, None, 30, 25)], "relevant": "RSW"},
     "C13": {"seq": [("malformed", 100, None, 60, 30), ("malformed", 64, None, 40, 30), ("cuts", 100, None, 30, 30)],
@@ -682,8 +684,8 @@ def run_seq_suites(prop, cfg, tier, seed, work, report):
         for d in diffs:
             all_diffs.append((tag,) + d)
         report["suites"].append(tag)
-        if not tag.startswith("conn_"):
-            report["trace_files"].append(tout)
+        if not tag.startswith("conn_") and not tag.endswith("_big"):
+            report["trace_files"].append(tout)   # (100 KB values are not re-evaluated inside Coq)
     report["distinct_nontrivial"] = len(distinct)
     return all_diffs
 
